@@ -79,7 +79,7 @@ func runC04(e *Env) {
 		"the 40-line scope model + 15-line onion interpreter in harness/mon/prog.go are the trusted statement of the documented order",
 		"chains stay far below the handler limit here (long chains are C05's business)",
 	}
-	e.RunCases("programs", e.N(15000, 400000), 0, c04Case)
+	e.RunCases("programs", e.N(15000, 3000000), 0, c04Case)
 	e.Require("requests.route", 5000)
 	e.Require("requests.not_found", 1000)
 	e.Require("requests.not_allowed", 300)
@@ -237,7 +237,7 @@ func runC12(e *Env) {
 		"group prefixes are clean non-root prefixes as in the property's quantifier ('' and '/' only for top-level groups)",
 		"the scope model in harness/mon/prog.go is the trusted statement of the documented group semantics",
 	}
-	e.RunCases("programs", e.N(15000, 400000), 0, c12Case)
+	e.RunCases("programs", e.N(15000, 3000000), 0, c12Case)
 	e.Require("routes.checked", 10000)
 	e.Require("routes.probe_after_group", 2000)
 	e.Require("programs.siblings", 500)
